@@ -131,6 +131,7 @@ Proof. intros H. unfold rcwr. destruct pool; [constructor|]. apply draw_idx_MY. 
 Fixpoint prod_true (ck : kind) (p : pred) : bool :=
   match p with
   | PTrue | PFalse | PEq _ | PNe _ | PIn _ | PIsNone | PIsFalsy | PIsTruthy | PIsEmpty | PIsInstance _ | PHasKey _ => true
+  | PSubset _ | PRealSubset _ => true
   | PGe _ | PGt _ | PLe _ | PLt _ => match ck with KInt | KFloat | KDatetime => true | _ => false end
   | PAll q | PAny q => prod_true ck q
   | POr l r => prod_true ck l && prod_true ck r
@@ -240,6 +241,8 @@ Proof.
     intros vs. destruct vs as [|v0 vs']; [constructor; lia|]. eapply G_up; [apply (rcwr_G _ 5 _ 1 6); [lia|]|lia|lia].
     intros sel. constructor; [lia|]. eapply G_up; [apply (rcwr_G _ 5 _ 1 1); [lia|]|lia|lia].
     intros sel2. destruct (all_hashable sel2); [constructor; [lia|constructor; lia]|constructor; lia].
+  - (* Subset *) constructor. eapply G_up; [apply emit_all_G|lia|lia].
+  - (* RealSubset *) constructor. eapply G_up; [apply emit_all_G|lia|lia].
   - (* HasKey *) constructor.
     eapply G_up; [eapply (G_round_pull 166 166 1 1 400 2 _ 0 [] _ GStop); try lia; try reflexivity|cbn; lia|lia].
     + intros [|j] _; [apply random_dicts_productive|eapply G_up; [apply random_anys_productive|lia|lia]].
